@@ -65,6 +65,9 @@ func vtC16LNode(k int64) string {
 }
 
 func vtC16LimiterExec(in []int64) []int64 {
+	if len(in) < 9 || in[0] != 1 {
+		return []int64{} // not an input of this stream (e.g. a replay file of another C16 stream)
+	}
 	dry, capNode, capNs, capTotal := in[1] != 0, in[2], in[3], in[4]
 	n, m, t := int(in[5]), int(in[6]), int(in[7])
 	reqs := in[8 : 8+3*t]
